@@ -14,6 +14,19 @@ def LegalRun : Sched → List Op → Prop
   | _, [] => True
   | s, op :: ops => LegalOp s op ∧ LegalRun (s.next op) ops
 
+instance (s : Sched) (op : Op) : Decidable (LegalOp s op) := by
+  cases op <;> simp only [LegalOp] <;> infer_instance
+
+def decLegalRun : (s : Sched) → (ops : List Op) → Decidable (LegalRun s ops)
+  | _, [] => isTrue trivial
+  | s, op :: ops =>
+    match (inferInstance : Decidable (LegalOp s op)), decLegalRun (s.next op) ops with
+    | isTrue h1, isTrue h2 => isTrue ⟨h1, h2⟩
+    | isFalse h1, _ => isFalse (fun h => h1 h.1)
+    | _, isFalse h2 => isFalse (fun h => h2 h.2)
+
+instance (s : Sched) (ops : List Op) : Decidable (LegalRun s ops) := decLegalRun s ops
+
 /-- the constants of a scheduler -/
 def SameSys (s s' : Sched) : Prop :=
   s'.mgr.bracketRungs = s.mgr.bracketRungs ∧ s'.mgr.mode = s.mgr.mode
